@@ -1,6 +1,7 @@
 import AvroModel
 import AvroModel.Alloc
 import AvroProofs.Lemmas.DecodeConforms
+import AvroProofs.Lemmas.LoopBound
 /-!
 # C05 — decoding untrusted bytes never panics, aborts, hangs or over-allocates
 
@@ -97,6 +98,44 @@ theorem decodeVar_consumes_le_10 (bs : Bytes) (z : Nat) (r : Bytes) (h : decodeV
   unfold decodeVar at h
   obtain ⟨k, hk1, hk2, hlen, _, _⟩ := decodeVarAux_bound 10 0 0 bs z r h (by simp)
   omega
+
+/-- **the work a hostile count can cause is bounded by the limit, not by the input**: a successfully decoded array
+holds at most `lim / size_of::<Value>()` items, cumulatively over all its blocks and whatever the items' width - a
+block of `null`s costs no input bytes, so this (with `blockCount_le` for the failing runs) is what bounds the number of
+item decodes -/
+theorem array_items_bounded (cfg : Cfg) (env : Names) (fuel : Nat) (inner : Schema) (bs r : Bytes) (items : List Value)
+    (h : decode cfg env (fuel + 1) (.array inner) bs = .ok (.array items, r)) :
+    items.length * cfg.szValue ≤ cfg.lim := by
+  simp only [decode] at h
+  cases ha : arrayLoop cfg (decode cfg env fuel inner) (bs.length + 1) [] bs with
+  | error e => rw [ha] at h; simp at h
+  | ok p =>
+    obtain ⟨its, r'⟩ := p
+    rw [ha] at h
+    simp only [Except.ok.injEq, Prod.mk.injEq, Value.array.injEq] at h
+    rw [← h.1]
+    exact arrayLoop_bound cfg _ _ [] bs its r' ha (by simp)
+
+/-- the same for maps (`size_of` of a map entry) -/
+theorem map_entries_bounded (cfg : Cfg) (env : Names) (fuel : Nat) (inner : Schema) (bs r : Bytes)
+    (es : List (Bytes × Value))
+    (h : decode cfg env (fuel + 1) (.map inner) bs = .ok (.map es, r)) :
+    es.length * cfg.szEntry ≤ cfg.lim := by
+  simp only [decode] at h
+  cases ha : mapLoop cfg (decEntryWith cfg.lim (decode cfg env fuel inner)) (bs.length + 1) [] bs with
+  | error e => rw [ha] at h; simp at h
+  | ok p =>
+    obtain ⟨its, r'⟩ := p
+    rw [ha] at h
+    simp only [Except.ok.injEq, Prod.mk.injEq, Value.map.injEq] at h
+    rw [← h.1]
+    exact mapLoop_bound cfg _ _ [] bs its r' ha (by simp)
+
+/-- non-vacuity: with a limit of two `Value`s, a block of two zero-width items is read and a block of three is refused
+before any item is decoded; two blocks of two are refused at the second block (the bound is cumulative) -/
+example : decode { lim := 112 } [] 3 (.array .null) [4, 0] = .ok (.array [.null, .null], []) := by rfl
+example : decode { lim := 112 } [] 3 (.array .null) [6, 0] = .error .allocLimit := by rfl
+example : decode { lim := 112 } [] 3 (.array .null) [4, 4, 0] = .error .allocLimit := by rfl
 
 /-- non-vacuity / boundary instances, also at the extremes of the limit -/
 example : safeLen 0 0 = .ok 0 ∧ safeLen 0 1 = .error .allocLimit := ⟨rfl, rfl⟩
